@@ -77,6 +77,9 @@ structure Stream where
   isRecv : Bool := true
   recvTask : Option String := none
   pushTask : Option String := none
+  /-- `pending_push_promises: Queue<NextAccept>`: keys of the promised streams (their
+      `is_pending_accept` flag is the queue's flag) -/
+  pendingPushPromises : List Nat := []
   contentLength : ContentLength := .omitted
   deriving Repr
 
@@ -292,6 +295,9 @@ structure Streams where
   actions : Actions := {}
   store : Store := {}
   refs : Nat := 1
+  /-- entries of `recv.buffer`'s slab that belonged to streams already removed from the store (a
+      removed stream's `pending_recv` is never drained: the entries stay in the slab for ever) -/
+  recvBufferLeaked : Nat := 0
   wakes : List String := []
   panicked : Option String := none
   /-- set when the model meets an input it does not cover -/
@@ -441,13 +447,16 @@ def transitionAfter (s : Streams) (id : Nat) (isResetCounted : Bool) : Streams :
         else s
       if !st.state.isScheduledReset && st.isCounted then s.decNumStreams id else s
     else s
-  if (s.stream id).isReleased then { s with store := s.store.remove id } else s
+  if (s.stream id).isReleased then
+    { s with store := s.store.remove id, recvBufferLeaked := s.recvBufferLeaked + (s.stream id).pendingRecv.length }
+  else s
 
 /-- number of entries of the shared send `Buffer` slab (`SB:`) -/
 def sendBufferLen (s : Streams) : Nat := s.store.slab.foldl (fun n st => n + st.pendingSend.length) 0
 
 /-- number of entries of `recv.buffer`'s slab (`B:`) -/
-def recvBufferLen (s : Streams) : Nat := s.store.slab.foldl (fun n st => n + st.pendingRecv.length) 0
+def recvBufferLen (s : Streams) : Nat :=
+  s.store.slab.foldl (fun n st => n + st.pendingRecv.length) s.recvBufferLeaked
 
 end Streams
 
